@@ -64,7 +64,7 @@ pub open spec fn type_name(v: Value) -> Seq<char> {
 SPEC_STR_LEN = r"""
     ensures
         r matches Ok(x) ==> vs@.len() == 0 && (this matches Some(t) && (t.v matches Value::Str(raw)
-            && x == (SourcedValue{v: Value::Int(raw@.len() as i64), source: None}) && raw@.len() <= i64::MAX)), // [C15:len_is_the_number_of_bytes_that_indexing_range_indexing_and_for_use]
+            && x == (SourcedValue{v: Value::Int(raw@.len() as i64), source: None}) && raw@.len() <= i64::MAX)), // [C11_C15:len_is_the_number_of_bytes_that_indexing_range_indexing_and_for_use]
         (vs@.len() == 0 && (this matches Some(t) && (t.v matches Value::Str(raw) && utf8_decode(raw@) is Some && raw@.len() <= i64::MAX))) ==> r is Ok, // [C15:len_is_defined_for_every_valid_utf8_string]
 """
 SPEC_ANY_TYPE = r"""
